@@ -680,6 +680,7 @@ func (c *Client) Do(ctx context.Context, q Query) (err error) {
 	var (
 		gotException atomic.Bool
 		recvFailed   atomic.Bool
+		sendFailed   atomic.Bool
 		colInfo      chan proto.ColInfoInput
 	)
 	if q.Result == nil && len(q.Input) > 0 {
@@ -703,8 +704,14 @@ func (c *Client) Do(ctx context.Context, q Query) (err error) {
 			}
 		}
 	}
-	g.Go(func() error {
+	g.Go(func() (rerr error) {
 		// Sending data.
+		defer func() {
+			if rerr != nil && !errors.Is(rerr, context.Canceled) && !errors.Is(rerr, context.DeadlineExceeded) {
+				// Not interrupted, but failed, e.g. on partial write.
+				sendFailed.Store(true)
+			}
+		}()
 		if err := c.sendQuery(ctx, q); err != nil {
 			return errors.Wrap(err, "send query")
 		}
@@ -792,5 +799,16 @@ func (c *Client) Do(ctx context.Context, q Query) (err error) {
 		}
 		return nil
 	})
-	return g.Wait()
+	err = g.Wait()
+	if err != nil && !c.IsClosed() {
+		// Query failed, but connection is kept, e.g. on server exception.
+		if sendFailed.Load() {
+			// State of connection is unknown, packet can be partially written.
+			_ = c.Close()
+		} else {
+			// Drop data of failed query that was encoded, but not sent.
+			c.writer.Reset()
+		}
+	}
+	return err
 }
